@@ -13,7 +13,7 @@ import dates as D   # noqa: E402
 from parallel import driver_parallel  # noqa: E402
 
 GEN = ['DateK', 'Calendar']
-PROPS = ['FinVerif.Props.C14a', 'FinVerif.Props.C14b', 'FinVerif.Props.C14c', 'FinVerif.Props.C14d']
+PROPS = ['FinVerif.Props.C14a', 'FinVerif.Props.C14b', 'FinVerif.Props.C14c', 'FinVerif.Props.C14d', 'FinVerif.Props.C14e']
 DRIVERS = ['FinVerif.Driver.C14']
 SPEC_DRIVERS = ['FinVerif.Driver.C14Spec']
 
